@@ -590,7 +590,7 @@ theorem pushBorrowed_anchors (anchors : List Anchor) (n : Nat) (hpos : ∀ a ∈
         List.getLast?_singleton, Option.some_or]
       exact setLast_append_singleton _ _ _
     rw [e2]
-    simp only [List.concat_eq_append, sumCounts_append, sumCounts_cons, sumCounts_nil] at hsum
+    simp only [sumCounts_append, sumCounts_cons, sumCounts_nil] at hsum
     refine ⟨?_, by simp only [sumCounts_append, sumCounts_cons, sumCounts_nil]; omega⟩
     intro x hx
     simp only [List.mem_append, List.mem_singleton] at hx
@@ -1169,7 +1169,7 @@ theorem Pushed.trans {w w' w'' : World} {v v' v'' : Iov} {b1 b2 : List UInt8}
     pol := h2.pol.trans h1.pol
     tun := h2.tun.trans h1.tun }
 
-theorem Pushed.of_frame {w w' : World} {v : Iov} (hinv : IovInv w v) (hinv' : IovInv w' v)
+theorem Pushed.of_frame {w w' : World} {v : Iov} (_hinv : IovInv w v) (hinv' : IovInv w' v)
     (hf : ∀ x ∈ v.slices, w'.sliceBytes x = w.sliceBytes x) (hpol : w'.pol = w.pol) (htun : w'.tun = w.tun) :
     Pushed w w' v v [] := by
   have hflat : w'.flat v.slices = w.flat v.slices := flat_congr _ hf
@@ -1741,7 +1741,7 @@ theorem find?_key {brs : List (Nat × BackrefInfo)} (hs : brs.Pairwise BrLt) (hp
     simp only [List.find?_cons]
     by_cases hk : x.1 = e.1
     · have := br_key_unique hs hpos (List.mem_cons_self) he hk
-      simp [hk, this]
+      simp [this]
     · simp only [hk, decide_false]
       rw [List.pairwise_cons] at hs
       simp only [List.mem_cons] at he
@@ -1774,9 +1774,9 @@ theorem World.backfill_invalid (w : World) (i : Nat) (v : Iov) (tok : Backref) (
     by_cases hl : info.len = src.length
     · rw [if_neg (by simpa using hl)]
       cases hf : v.backrefs.find? (fun x => decide (x.1 = key)) with
-      | none => simp only [hf]
+      | none => simp only []
       | some found =>
-        simp only [hf]
+        simp only []
         have hm := List.mem_of_find?_eq_some hf
         have hne : found ≠ (key, info) := fun e => h ⟨by rw [← e]; exact hm, hl⟩
         rw [if_pos hne]
@@ -2416,7 +2416,7 @@ theorem mkCells_getElem? (brs : List (Nat × BackrefInfo)) (off : Nat) (bs : Lis
 theorem any_not_isByte_map_byte (bs : List UInt8) : (bs.map Cell.byte).any (fun c => !c.isByte) = false := by
   induction bs with
   | nil => rfl
-  | cons b t ih => simp [Cell.isByte, ih]
+  | cons b t ih => simp [Cell.isByte]
 
 /-- `has_pending_backrefs` (hence `iovs`/`flatten`/`stable_consumer` reporting an error) holds
 exactly when the abstract pipe still has a hole. -/
@@ -2453,7 +2453,7 @@ theorem hasPending_eq_pending {w : World} {v : Iov} (h : IovInv w v) :
     rw [this]; rfl
 
 /-- With no pending backref the stable prefix is everything that is buffered. -/
-theorem visible_all_of_no_pending {w : World} {v : Iov} (h : IovInv w v) (hp : v.hasPending = false) :
+theorem visible_all_of_no_pending {w : World} {v : Iov} (_h : IovInv w v) (hp : v.hasPending = false) :
     w.visible v = w.flat v.slices ∧ absCells w v = (w.visible v).map Cell.byte := by
   have hb : v.backrefs = [] := by
     unfold Iov.hasPending at hp
